@@ -107,6 +107,7 @@ class C10(Check):
     assumptions = [
         "pieces are whole input scaffolds at bpt 1 (no placement tolerance); a separate small family cuts one scaffold into main + Unloc",
         "unloc numbering by size is not asserted (the statement claims size order only for chromosomes and haplotigs)",
+        "chromosome 'sequence length' = bases in fragments (gap rows are not sequence); haplotig 'length' is ambiguous, an inversion is reported only if it is one with and without gaps",
     ]
 
     def bounds(self, tier):
@@ -120,6 +121,7 @@ class C10(Check):
                 if ci % 5 == 0:
                     out.append(("single", n, ci // 5, tier))
         out.append(("many", 0))
+        out.append(("gapped", 0))
         for pairs in range(1, b["two_hap_pairs"] + 1):
             for hp in range(3):
                 for fl in MAIN_LENS:
@@ -223,7 +225,8 @@ class C10(Check):
                 else:
                     tot = {n: chrom_total[s.name] for n, _, s in nums}
                     for i in range(1, len(ns)):
-                        if inversion(tot[i], tot[i + 1]):
+                        # "sequence length": bases of the chromosome and its unlocs; gap rows are not sequence
+                        if tot[i][0] < tot[i + 1][0]:
                             errs.append(("autosomes-not-by-size", f"{key!r}: {prefix}{i} has {tot[i][:2]!r}, {prefix}{i + 1} has {tot[i + 1][:2]!r}"))
             numbers_by_hap[key] = nums
             # output order
@@ -255,6 +258,8 @@ class C10(Check):
                 if irow[4] == -1:  # single reverse-strand contig: scaffold position p is contig coordinate end - (p - 1)
                     lo, hi = irow[3] - (_e - 1), irow[3] - (_s - 1)
                 locs = [(k, sc_) for k, sc_, fs, fe in home.get(src, []) if lo <= fs and fe <= hi]
+                if locs and all(x[1] is locs[0][1] for x in locs):
+                    locs = locs[:1]  # a piece spanning several contigs of one scaffold: all in one output scaffold
                 if len(locs) != 1:
                     errs.append(("piece-not-exactly-once", f"{src}:{_s}-{_e}: {len(locs)}"))
                     continue
@@ -329,6 +334,24 @@ class C10(Check):
                                         self.run_case(inp, scaffolds, prefix, ctx)
             inp, scaffolds, _ = build_case((20,) * n, confs_all[block * 5], None, None, 1, False)
             ctx.sample({"input": pv.jsonable(inp), "pretext": pv.jsonable((1.0, scaffolds)), "prefix": "SUPER_"})
+        elif kind == "gapped":
+            # chromosomes whose order by bases differs from their order by gapped span
+            for n in (2, 3):
+                for lens in itertools.product((10, 20, 30), repeat=n):
+                    for gaps in itertools.product((0, 25, 200), repeat=n):
+                        inp = []
+                        scaffolds = []
+                        for i in range(n):
+                            name = f"ctg_{i + 1}"
+                            half = lens[i] // 2
+                            if gaps[i]:
+                                rows = (("F", name, 1, half, 1), ("G", gaps[i], "scaffold"), ("F", name, half + gaps[i] + 1, lens[i] + gaps[i], 1))
+                            else:
+                                rows = (("F", name, 1, lens[i], 1),)
+                            inp.append((name, rows))
+                            scaffolds.append((f"Scaffold_{i + 1}", ((name, 1, lens[i] + gaps[i], 1, ("Painted",)),)))
+                        self.run_case(tuple(inp), tuple(scaffolds), "SUPER_", ctx)
+            ctx.sample({"gapped": "painted scaffolds with internal gaps of 0/25/200 so that span order != base order"})
         elif kind == "many":
             for n in (10, 11, 12):
                 for pattern in ("desc", "asc", "mixed", "equal"):
